@@ -1,13 +1,637 @@
-(* C17 — stage 1 (unfixed code): witnesses of the two defects on the faithful model. *)
+(* C17 — proofs about the poll_recv model. *)
 From V Require Import Lib.Base Lib.MachineInt Model.C16 Model.C17.
-Import C17.
+From Coq Require Import ZifyBool.
+Import C16 C17.
 Open Scope N_scope.
 
-Definition w1 : input :=
-  [Arrive (mkItem 1 (C16.mkDg 0 (Some 4) [1;2;3;4;5;6;7;8;9])); Arrive (mkItem 2 (C16.mkDg 0 None [7]));
-   Poll [3]; Poll [3;3]].
-Definition w2 : input :=
-  [Arrive (mkItem 1 (C16.mkDg 0 None [1;2;3;4])); Arrive (mkItem 2 (C16.mkDg 0 None [7])); Poll [3]].
+(* ------------------------------------------------------------------ *)
+(* cutting at stride boundaries, with nat strides                      *)
+Fixpoint chunksn (fuel n : nat) (c : bytes) : list bytes :=
+  match fuel with
+  | O => [c]
+  | S f => if (length c <=? n)%nat then [c]
+           else firstn n c :: chunksn f n (skipn n c)
+  end.
+Definition splitn (n : nat) (c : bytes) : list bytes := chunksn (length c) n c.
 
-Lemma wedge_refuted : monitor w1 (model w1) = false /\ monitor w2 (model w2) = false.
-Proof. vm_compute. auto. Qed.
+Lemma chunks_chunksn fuel ss : forall c, chunks fuel ss c = chunksn fuel (N.to_nat ss) c.
+Proof.
+  induction fuel as [|f IH]; intros c; cbn [chunks chunksn]; [reflexivity|].
+  rewrite IH. unfold len.
+  destruct (N.leb_spec (N.of_nat (length c)) ss), (Nat.leb_spec (length c) (N.to_nat ss));
+    try reflexivity; lia.
+Qed.
+
+Lemma split_splitn ss c : split ss c = splitn (N.to_nat ss) c.
+Proof. apply chunks_chunksn. Qed.
+
+Lemma chunksn_fuel n : (1 <= n)%nat -> forall f1 f2 c,
+  (length c <= f1)%nat -> (length c <= f2)%nat -> chunksn f1 n c = chunksn f2 n c.
+Proof.
+  intros Hn. induction f1 as [|f1 IH]; intros f2 c H1 H2.
+  - destruct c; [|cbn in H1; lia]. destruct f2; reflexivity.
+  - destruct f2 as [|f2].
+    + destruct c; [|cbn in H2; lia]. reflexivity.
+    + cbn [chunksn]. destruct (Nat.leb_spec (length c) n); [reflexivity|].
+      f_equal. apply IH; rewrite skipn_length; lia.
+Qed.
+
+Lemma splitn_small n c : (length c <= n)%nat -> splitn n c = [c].
+Proof.
+  intros H. unfold splitn. destruct (length c) eqn:E; cbn [chunksn]; [reflexivity|].
+  rewrite E. destruct (Nat.leb_spec (S n0) n); [reflexivity|lia].
+Qed.
+
+Lemma splitn_big n c : (1 <= n)%nat -> (n < length c)%nat ->
+  splitn n c = firstn n c :: splitn n (skipn n c).
+Proof.
+  intros Hn H. unfold splitn. destruct (length c) eqn:E; [lia|]. cbn [chunksn].
+  rewrite E. destruct (Nat.leb_spec (S n0) n); [lia|].
+  f_equal. apply chunksn_fuel; auto; rewrite skipn_length; lia.
+Qed.
+
+Lemma skipn_add {A} a : forall b (l : list A), skipn (a + b) l = skipn b (skipn a l).
+Proof.
+  induction a as [|a IH]; intros b l; [reflexivity|].
+  destruct l; cbn [Nat.add skipn]; [destruct b; reflexivity|apply IH].
+Qed.
+
+Lemma splitn_app n k : (1 <= n)%nat -> forall c, (S k * n < length c)%nat ->
+  splitn n c = splitn n (firstn (S k * n) c) ++ splitn n (skipn (S k * n) c).
+Proof.
+  intros Hn. induction k as [|k IH]; intros c H.
+  - replace (1 * n)%nat with n in * by lia.
+    rewrite (splitn_big n c) by lia.
+    rewrite (splitn_small n (firstn n c)) by (try rewrite firstn_length; lia).
+    reflexivity.
+  - replace (S (S k) * n)%nat with (n + S k * n)%nat in * by lia.
+    rewrite (splitn_big n c) by lia.
+    rewrite (IH (skipn n c)) by (try rewrite skipn_length; lia).
+    rewrite (splitn_big n (firstn (n + S k * n) c)) by (try rewrite firstn_length; lia).
+    rewrite firstn_firstn. replace (Init.Nat.min n (n + S k * n)) with n by lia.
+    rewrite <- firstn_skipn_comm. rewrite skipn_add. reflexivity.
+Qed.
+
+Lemma chunksn_le n : (1 <= n)%nat -> forall f c, (length c <= f)%nat ->
+  Forall (fun d => (length d <= n)%nat) (chunksn f n c).
+Proof.
+  intros Hn. induction f as [|f IH]; intros c H; cbn [chunksn].
+  - constructor; [lia|constructor].
+  - destruct (Nat.leb_spec (length c) n).
+    + constructor; [lia|constructor].
+    + constructor; [rewrite firstn_length; lia|].
+      apply IH. rewrite skipn_length. lia.
+Qed.
+
+Lemma splitn_le n c : (1 <= n)%nat -> Forall (fun d => (length d <= n)%nat) (splitn n c).
+Proof. intros Hn. apply chunksn_le; auto. Qed.
+
+(* ------------------------------------------------------------------ *)
+(* tagged datagrams and the fit filter                                 *)
+Definition tagd (k : N) (l : list bytes) : list tdg := map (pair k) l.
+Definition fitl (B : N) (l : list tdg) : list tdg := filter (fits B) l.
+
+Lemma fitl_app B a b : fitl B (a ++ b) = fitl B a ++ fitl B b.
+Proof. apply filter_app. Qed.
+
+Lemma fitl_all B k l : Forall (fun d => len d <= B) l -> fitl B (tagd k l) = tagd k l.
+Proof.
+  induction 1 as [|d l Hd _ IH]; [reflexivity|].
+  unfold fitl, tagd in *. cbn [map filter]. unfold fits at 1. cbn [snd].
+  destruct (N.leb_spec (len d) B); [|lia]. now rewrite IH.
+Qed.
+
+Lemma fitl_one B k d : fitl B [(k, d)] = if len d <=? B then [(k, d)] else [].
+Proof. reflexivity. Qed.
+
+Lemma item_dgs_eq it : item_dgs it = tagd (src it) (dgs_of (dgs it)).
+Proof. reflexivity. Qed.
+
+Lemma slot_dgs_eq sl : slot_dgs sl = tagd (s_src sl) (split (s_stride sl) (s_data sl)).
+Proof. reflexivity. Qed.
+
+Lemma split_small ss c : len c <= ss -> split ss c = [c].
+Proof. intros H. rewrite split_splitn. apply splitn_small. unfold len in H. lia. Qed.
+
+Lemma split_le ss c B : 1 <= ss -> ss <= B -> Forall (fun d => len d <= B) (split ss c).
+Proof.
+  intros H1 H2. rewrite split_splitn.
+  eapply Forall_impl; [|apply (splitn_le (N.to_nat ss) c); lia].
+  cbn beta. intros d Hd. unfold len. lia.
+Qed.
+
+(* ------------------------------------------------------------------ *)
+(* one iteration of the loop: take_segments with the fixed num_segments *)
+Lemma take_ok d n : exists p r, take_segments d n = Ok (p, r).
+Proof. unfold take_segments. destruct (seg d); eexists _, _; reflexivity. Qed.
+
+Definition out_of (b : N) (it : item) (piece : dg) : list tdg :=
+  if b <? len (contents piece) then [] else slot_dgs (slot_of it piece).
+Definition restq (b : N) (it : item) (rest : dg) : list tdg :=
+  match contents rest with
+  | [] => []
+  | _ :: _ => fitl b (item_dgs (mkItem (src it) rest))
+  end.
+
+Lemma take_spec b it piece rest :
+  b <= U64_MAX -> wf_dg (dgs it) = true ->
+  take_segments (dgs it) (num_segments b (dgs it)) = Ok (piece, rest) ->
+  out_of b it piece ++ restq b it rest = fitl b (item_dgs it) /\
+  wf_dg rest = true /\
+  (length (contents piece) + length (contents rest) = length (contents (dgs it)))%nat /\
+  (contents rest <> [] -> contents piece <> []).
+Proof.
+  destruct it as [k [e s c]]. unfold wf_dg, num_segments, take_segments. cbn [dgs seg contents ecn src].
+  intros Hb Hwf Ht. destruct s as [ss|].
+  2:{ (* no segment size: everything is taken *)
+    inversion Ht; subst piece rest; clear Ht. unfold out_of, restq. cbn [contents seg].
+    rewrite app_nil_r, item_dgs_eq. cbn [src dgs]. unfold dgs_of. cbn [seg contents].
+    repeat split; try (cbn; lia); try congruence.
+    unfold tagd; cbn [map]. rewrite fitl_one.
+    rewrite slot_dgs_eq. unfold slot_of. cbn [s_src s_stride s_data seg contents src].
+    rewrite split_small by lia. unfold tagd; cbn [map].
+    destruct (N.ltb_spec b (len c)), (N.leb_spec (len c) b); try reflexivity; lia. }
+  apply andb_prop in Hwf as [Hss1 Hss2].
+  apply N.leb_le in Hss1, Hss2. unfold U16_MAX in Hss2.
+  cbv zeta in Ht.
+  set (n := N.max (b / ss) 1) in *.
+  assert (Hn1 : 1 <= n) by (unfold n; lia).
+  assert (Hnb : (ss <= b /\ n = b / ss /\ n * ss <= b) \/ (b < ss /\ n = 1)).
+  { destruct (N.le_gt_cases ss b) as [H|H].
+    - left. assert (0 < b / ss) by (apply N.div_str_pos; lia).
+      assert (ss * (b / ss) <= b) by (apply N.mul_div_le; lia).
+      unfold n. split; [exact H|]. split; lia.
+    - right. split; [exact H|]. unfold n. rewrite N.div_small by exact H. reflexivity. }
+  assert (Hsat : u64_sat_mul n ss = n * ss).
+  { unfold u64_sat_mul, U64_MAX in *. destruct Hnb as [(?&?&?)|(?&Hn)]; [lia|]. rewrite Hn. lia. }
+  rewrite Hsat in Ht. clearbody n.
+  set (k0 := N.to_nat (N.min (n * ss) (len c))) in *.
+  inversion Ht; subst piece rest; clear Ht.
+  unfold out_of, restq. cbn [contents seg src].
+  rewrite (item_dgs_eq (mkItem k (mkDg e (Some ss) c))). cbn [src dgs]. unfold dgs_of. cbn [seg contents].
+  assert (Hlen : (length (firstn k0 c) + length (skipn k0 c) = length c)%nat).
+  { rewrite <- (firstn_skipn k0 c) at 3. now rewrite app_length. }
+  assert (Hwfr : forall r : bytes,
+    match (if len r <=? ss then None else Some ss) with
+    | Some s => (1 <=? s) && (s <=? U16_MAX)
+    | None => true
+    end = true).
+  { intros r. destruct (len r <=? ss); [reflexivity|].
+    apply andb_true_intro; split; apply N.leb_le; unfold U16_MAX; lia. }
+  destruct (N.le_gt_cases (len c) (n * ss)) as [Hall|Hpart].
+  - (* the whole rest of the batch is taken *)
+    assert (Hk0 : k0 = length c) by (unfold k0, len in *; lia).
+    rewrite Hk0, firstn_all, skipn_all in *. cbn [length] in *.
+    rewrite app_nil_r.
+    split; [|split; [cbn [seg]; apply Hwfr|split; [lia|congruence]]].
+    rewrite slot_dgs_eq. unfold slot_of. cbn [s_src s_stride s_data seg contents src].
+    destruct Hnb as [(Hsb&_&Hnss)|(Hbs&Hn)].
+    + destruct (N.ltb_spec b (len c)); [lia|].
+      rewrite (fitl_all b k (split ss c)) by (apply split_le; lia).
+      destruct ((1 <? n) && (ss <? len c)) eqn:E; [reflexivity|].
+      rewrite split_small by lia.
+      rewrite split_small; [reflexivity|].
+      destruct (N.ltb_spec 1 n), (N.ltb_spec ss (len c)); cbn in E; try discriminate; try lia.
+      assert (n = 1) by lia. subst n. lia.
+    + subst n. rewrite N.mul_1_l in *.
+      replace ((1 <? 1) && (ss <? len c)) with false by reflexivity.
+      rewrite (split_small ss c) by lia. rewrite split_small by lia.
+      unfold tagd; cbn [map]. rewrite fitl_one.
+      destruct (N.ltb_spec b (len c)), (N.leb_spec (len c) b); try reflexivity; lia.
+  - (* n full segments are taken, something is left *)
+    assert (Hk0 : k0 = N.to_nat (n * ss)) by (unfold k0, len in *; lia).
+    assert (Hp : length (firstn k0 c) = N.to_nat (n * ss)).
+    { rewrite firstn_length. unfold len in *. lia. }
+    assert (Hr : (0 < length (skipn k0 c))%nat) by (unfold len in *; lia).
+    destruct (skipn k0 c) as [|x r'] eqn:Er; [cbn in Hr; lia|]. rewrite <- Er in *.
+    split; [|split; [|split; [lia|]]].
+    2:{ cbn [seg]. apply Hwfr. }
+    2:{ intros _ E. rewrite E in Hp. cbn in Hp. lia. }
+    (* split of the whole = split of the piece ++ split of the rest *)
+    assert (Hsplit : split ss c = split ss (firstn k0 c) ++ split ss (skipn k0 c)).
+    { rewrite !split_splitn.
+      destruct (N.to_nat n) as [|kk] eqn:En; [lia|].
+      assert (Hkk : k0 = (S kk * N.to_nat ss)%nat) by lia.
+      rewrite Hkk. apply splitn_app; [lia|]. unfold len in *. lia. }
+    assert (Hrest : item_dgs (mkItem k (mkDg e (if len (skipn k0 c) <=? ss then None else Some ss) (skipn k0 c)))
+                    = tagd k (split ss (skipn k0 c))).
+    { rewrite item_dgs_eq. cbn [src dgs]. unfold dgs_of.
+      destruct (N.leb_spec (len (skipn k0 c)) ss); cbn [seg contents]; [|reflexivity].
+      now rewrite split_small. }
+    rewrite Hrest, Hsplit. unfold tagd. rewrite map_app. fold (tagd k (split ss (firstn k0 c))).
+    fold (tagd k (split ss (skipn k0 c))). rewrite fitl_app. f_equal.
+    assert (Hlp : len (firstn k0 c) = n * ss) by (unfold len; lia).
+    rewrite Hlp.
+    destruct Hnb as [(Hsb&_&Hnss)|(Hbs&Hn)].
+    + destruct (N.ltb_spec b (n * ss)); [lia|].
+      rewrite slot_dgs_eq. unfold slot_of. cbn [s_src s_stride s_data seg contents src].
+      rewrite Hlp.
+      rewrite (fitl_all b k (split ss (firstn k0 c))) by (apply split_le; lia).
+      destruct ((1 <? n) && (ss <? n * ss)) eqn:E; [reflexivity|].
+      assert (n = 1).
+      { destruct (N.ltb_spec 1 n), (N.ltb_spec ss (n * ss)); cbn in E; try discriminate; nia. }
+      subst n. now rewrite N.mul_1_l.
+    + subst n. rewrite N.mul_1_l in *.
+      destruct (N.ltb_spec b ss); [|lia].
+      rewrite (split_small ss (firstn k0 c)) by lia.
+      unfold tagd; cbn [map]. rewrite fitl_one, Hlp.
+      destruct (N.leb_spec ss b); [lia|reflexivity].
+Qed.
+
+(* ------------------------------------------------------------------ *)
+(* the receive loop                                                    *)
+Definition wf_item (it : item) : Prop := wf_dg (dgs it) = true.
+Definition wf_st (s : st) : Prop :=
+  (forall it, pending s = Some it -> wf_item it) /\ Forall wf_item (chan s).
+Definition Q (B : N) (s : st) : list tdg := fitl B (queue_dgs s).
+Definition slot_ok (sl : slot) : Prop := s_len sl = len (s_data sl).
+
+Lemma next_item_none s : next_item s = None -> pending s = None /\ chan s = [].
+Proof.
+  unfold next_item. destruct (pending s); [discriminate|]. destruct (chan s); [auto|discriminate].
+Qed.
+
+Lemma next_item_some s it s1 : wf_st s -> next_item s = Some (it, s1) ->
+  pending s1 = Some it /\ wf_item it /\ Forall wf_item (chan s1) /\
+  closed s1 = closed s /\ wk s1 = wk s /\
+  queue_dgs s = item_dgs it ++ flat_map item_dgs (chan s1) /\
+  qsize s = (item_size it + fold_right (fun it a => item_size it + a) O (chan s1))%nat.
+Proof.
+  intros [Hp Hc]. unfold next_item, queue_dgs, qsize.
+  destruct (pending s) as [p|] eqn:Ep.
+  - intros E; inversion E; subst. rewrite Ep. repeat split; auto.
+  - destruct (chan s) as [|x ch] eqn:Ec; [discriminate|].
+    intros E; inversion E; subst. cbn [pending chan closed wk].
+    inversion Hc; subst. repeat split; auto.
+Qed.
+
+Definition result_of (l : list slot) : presult := match l with [] => Pending | _ => Ready l end.
+
+Definition loop_post (s : st) (bufs : list N) (acc : list slot) (res : st * presult * bool) : Prop :=
+  let '(s', r, reg) := res in
+  (r = ErrClosed /\ closed s = true) \/
+  exists new,
+    r = result_of (acc ++ new) /\
+    (forall B, Forall (eq B) bufs -> flat_map slot_dgs new ++ Q B s' = Q B s) /\
+    wf_st s' /\ closed s' = closed s /\
+    (qsize s' + length new <= qsize s)%nat /\
+    Forall slot_ok new /\
+    (reg = true -> pending s' = None /\ chan s' = [] /\ wk s' = true /\ closed s' = false) /\
+    (reg = false -> length new = length bufs /\ wk s' = wk s).
+
+Lemma loop_spec : forall fuel s bufs acc,
+  Forall (fun b => b <= U64_MAX) bufs -> wf_st s -> (qsize s < fuel)%nat ->
+  loop_post s bufs acc (poll_loop fuel s bufs acc).
+Proof.
+  induction fuel as [|f IH]; intros s bufs acc Hb Hwf Hfuel; [lia|].
+  destruct bufs as [|b bs].
+  - (* all buffers used *)
+    cbn [poll_loop]. unfold finish, loop_post. right. exists []. rewrite app_nil_r.
+    split; [reflexivity|]. split; [intros; reflexivity|]. split; [exact Hwf|]. split; [reflexivity|].
+    split; [cbn [length]; lia|]. split; [constructor|]. split; [intros; discriminate|].
+    intros _. split; reflexivity.
+  - cbn [poll_loop].
+    destruct (next_item s) as [[it s1]|] eqn:En.
+    2:{ (* queue empty *)
+      apply next_item_none in En as [Ep Ec].
+      destruct (closed s) eqn:Ecl.
+      - unfold loop_post. left. auto.
+      - unfold finish, loop_post. right. exists []. rewrite app_nil_r.
+        cbn [pending chan closed wk].
+        split; [reflexivity|]. split.
+        { intros B _. unfold Q, queue_dgs. cbn [pending chan]. reflexivity. }
+        split. { destruct Hwf as [H1 H2]. split; cbn [pending chan]; auto. }
+        split; [auto|]. split. { unfold qsize. cbn [pending chan length]. lia. }
+        split; [constructor|]. split; [auto|]. intros; discriminate. }
+    apply (next_item_some s it s1 Hwf) in En as (Ep1 & Hwit & Hwch & Ecl1 & Ewk1 & Hq & Hsz).
+    destruct (take_ok (dgs it) (num_segments b (dgs it))) as (piece & rest & Ht).
+    rewrite Ht.
+    inversion Hb as [|? ? Hb1 Hb2]; subst.
+    destruct (take_spec b it piece rest Hb1 Hwit Ht) as (Hout & Hwr & Hlen & Hne).
+    set (s2 := mkSt (match contents rest with [] => None | _ :: _ => Some (mkItem (src it) rest) end)
+                    (chan s1) (closed s1) (wk s1)).
+    assert (Hwf2 : wf_st s2).
+    { split; cbn [pending chan]; [|exact Hwch].
+      intros it' E. destruct (contents rest); [discriminate|]. inversion E; subst. exact Hwr. }
+    assert (Hq2 : forall B, B = b -> out_of b it piece ++ Q B s2 = Q B s).
+    { intros B ->. unfold Q. rewrite Hq, fitl_app, <- Hout, <- app_assoc. f_equal.
+      unfold queue_dgs, s2. cbn [pending chan]. rewrite fitl_app. f_equal.
+      unfold restq. destruct (contents rest); reflexivity. }
+    assert (Hsz2 : (qsize s2 < qsize s)%nat /\
+                   ((b <? len (contents piece)) = false -> (qsize s2 + 1 <= qsize s)%nat)).
+    { rewrite Hsz. unfold qsize, s2, item_size. cbn [pending chan].
+      destruct (contents rest) as [|x r'] eqn:Er.
+      - split; intros; lia.
+      - assert (contents piece <> []) by (apply Hne; congruence).
+        destruct (contents piece); [congruence|]. cbn [dgs contents length] in *. rewrite ?Er. cbn [length].
+        split; intros; lia. }
+    destruct Hsz2 as [Hsz2 Hsz2'].
+    destruct (b <? len (contents piece)) eqn:Edrop.
+    + (* does not fit: dropped, same buffer again *)
+      specialize (IH s2 (b :: bs) acc Hb Hwf2 ltac:(lia)).
+      destruct (poll_loop f s2 (b :: bs) acc) as [[s' r] reg].
+      unfold loop_post in *.
+      destruct IH as [[Hr Hc]|(new & Hr & HQ & Hw' & Hc' & Hs' & Hok & Hreg & Hnreg)].
+      * left. split; [exact Hr|]. unfold s2 in Hc. cbn [closed] in Hc. congruence.
+      * right. exists new. split; [exact Hr|]. split.
+        { intros B HB. rewrite (HQ B HB). inversion HB; subst.
+          rewrite <- (Hq2 b eq_refl). unfold out_of. now rewrite Edrop. }
+        split; [exact Hw'|]. split. { rewrite Hc'. unfold s2. cbn [closed]. exact Ecl1. }
+        split; [lia|]. split; [exact Hok|]. split; [exact Hreg|].
+        intros E. destruct (Hnreg E) as [A Bw]. split; [exact A|].
+        rewrite Bw. unfold s2. cbn [wk]. exact Ewk1.
+    + (* fits: slot filled *)
+      inversion Hb as [|? ? _ Hbs]; subst.
+      specialize (IH s2 bs (acc ++ [slot_of it piece]) Hbs Hwf2 ltac:(lia)).
+      destruct (poll_loop f s2 bs (acc ++ [slot_of it piece])) as [[s' r] reg].
+      unfold loop_post in *.
+      destruct IH as [[Hr Hc]|(new & Hr & HQ & Hw' & Hc' & Hs' & Hok & Hreg & Hnreg)].
+      * left. split; [exact Hr|]. unfold s2 in Hc. cbn [closed] in Hc. congruence.
+      * right. exists (slot_of it piece :: new).
+        split. { rewrite Hr, <- app_assoc. reflexivity. }
+        split.
+        { intros B HB. inversion HB as [|? ? HB1 HB2]; subst.
+          cbn [flat_map]. rewrite <- app_assoc, (HQ b HB2).
+          rewrite <- (Hq2 b eq_refl). unfold out_of. now rewrite Edrop. }
+        split; [exact Hw'|]. split. { rewrite Hc'. unfold s2. cbn [closed]. exact Ecl1. }
+        split. { cbn [length]. specialize (Hsz2' eq_refl). lia. }
+        split. { constructor; [reflexivity|exact Hok]. }
+        split; [exact Hreg|].
+        intros E. destruct (Hnreg E) as [A Bw]. split; [cbn [length]; lia|].
+        rewrite Bw. unfold s2. cbn [wk]. exact Ewk1.
+Qed.
+
+(* ------------------------------------------------------------------ *)
+(* one poll                                                            *)
+Definition all_le (bufs : list N) : Prop := Forall (fun b => b <= USIZE_MAX) bufs.
+
+Lemma poll_spec s bufs :
+  all_le bufs -> wf_st s -> loop_post s bufs [] (poll_recv s bufs).
+Proof. intros Hb Hwf. unfold poll_recv. apply loop_spec; auto. Qed.
+
+(* Every receive poll with at least one buffer (of any sizes) either returns at least one
+   filled slot and has consumed queued input, or returns the closed-queue error, or returns
+   Pending with the waker registered and nothing left in the transport. *)
+Lemma progress_or_registered s bufs :
+  wf_st s -> all_le bufs -> bufs <> [] ->
+  let '(s', r, reg) := poll_recv s bufs in
+  (exists slots, r = Ready slots /\ slots <> [] /\ (qsize s' < qsize s)%nat) \/
+  (r = ErrClosed /\ closed s = true) \/
+  (r = Pending /\ reg = true /\ pending s' = None /\ chan s' = [] /\ wk s' = true /\ closed s' = false).
+Proof.
+  intros Hwf Hb Hne. pose proof (poll_spec s bufs Hb Hwf) as H.
+  destruct (poll_recv s bufs) as [[s' r] reg]. unfold loop_post in H.
+  destruct H as [[Hr Hc]|(new & Hr & _ & _ & _ & Hs & _ & Hreg & Hnreg)]; [auto|].
+  cbn [app] in Hr. destruct new as [|sl new].
+  - right. right. destruct reg.
+    + destruct (Hreg eq_refl) as (A & B & C & D). auto 10.
+    + destruct (Hnreg eq_refl) as [A _]. destruct bufs; [congruence|discriminate].
+  - left. exists (sl :: new). split; [exact Hr|]. split; [discriminate|]. cbn [length] in Hs. lia.
+Qed.
+
+(* after Pending the next arrival wakes the poller *)
+Lemma pending_then_arrival_wakes s bufs it :
+  wf_st s -> all_le bufs -> bufs <> [] ->
+  let '(s', r, _) := poll_recv s bufs in
+  r = Pending -> snd (step s' (Arrive it)) = OArrive true.
+Proof.
+  intros Hwf Hb Hne. pose proof (progress_or_registered s bufs Hwf Hb Hne) as H.
+  destruct (poll_recv s bufs) as [[s' r] reg]. intros Hr. subst r.
+  destruct H as [(sl & E & _)|[[E _]|(_ & _ & _ & _ & Hw & Hc)]]; try discriminate.
+  cbn [step]. now rewrite Hc, Hw.
+Qed.
+
+(* repeated polling drains the transport: a Ready poll strictly decreases qsize, so after at
+   most qsize s Ready polls in a row (no arrivals in between) the next one is Pending/Err *)
+Fixpoint poll_n (s : st) (B : N) (n : nat) : st * list presult :=
+  match n with
+  | O => (s, [])
+  | S n' => let '(s', r, _) := poll_recv s [B] in
+            let '(s'', rs) := poll_n s' B n' in (s'', r :: rs)
+  end.
+
+Lemma drains : forall n s B, wf_st s -> B <= USIZE_MAX -> (qsize s < n)%nat ->
+  exists r, In r (snd (poll_n s B n)) /\ (r = Pending \/ r = ErrClosed).
+Proof.
+  induction n as [|n IH]; intros s B Hwf HB Hq; [lia|].
+  cbn [poll_n].
+  assert (Hb : all_le [B]) by (constructor; [exact HB|constructor]).
+  pose proof (progress_or_registered s [B] Hwf Hb ltac:(discriminate)) as H.
+  pose proof (poll_spec s [B] Hb Hwf) as H2.
+  destruct (poll_recv s [B]) as [[s' r] reg].
+  destruct (poll_n s' B n) as [s'' rs] eqn:En. cbn [snd].
+  destruct H as [(sl & E & _ & Hlt)|[[E _]|(E & _)]].
+  - unfold loop_post in H2.
+    destruct H2 as [[E2 _]|(new & _ & _ & Hw' & _)]; [congruence|].
+    destruct (IH s' B Hw' HB ltac:(lia)) as (r' & Hin & Hr'). rewrite En in Hin.
+    exists r'. split; [right; exact Hin|exact Hr'].
+  - exists r. split; [left; reflexivity|auto].
+  - exists r. split; [left; reflexivity|auto].
+Qed.
+
+(* ------------------------------------------------------------------ *)
+(* histories                                                           *)
+Definition ev_ok (B : N) (e : ev) : Prop :=
+  match e with
+  | Arrive it => wf_item it
+  | Poll bufs => Forall (eq B) bufs
+  | Close => False
+  end.
+
+Lemma all_le_uniform B bufs : B <= USIZE_MAX -> Forall (eq B) bufs -> all_le bufs.
+Proof. intros HB H. eapply Forall_impl; [|exact H]. cbn beta. intros a <-. exact HB. Qed.
+
+Lemma Q_arrive B s it :
+  Q B (mkSt (pending s) (chan s ++ [it]) false false) = Q B s ++ fitl B (item_dgs it).
+Proof.
+  unfold Q, queue_dgs. cbn [pending chan]. rewrite flat_map_app. cbn [flat_map].
+  rewrite app_nil_r, app_assoc. apply fitl_app.
+Qed.
+
+Lemma wf_arrive s it : wf_st s -> wf_item it -> wf_st (mkSt (pending s) (chan s ++ [it]) false false).
+Proof.
+  intros [H1 H2] Hi. split; cbn [pending chan]; [exact H1|].
+  apply Forall_app. split; [exact H2|]. constructor; [exact Hi|constructor].
+Qed.
+
+Lemma delivered_result new :
+  match result_of new with Ready sl => flat_map slot_dgs sl | _ => [] end = flat_map slot_dgs new.
+Proof. destruct new; reflexivity. Qed.
+
+Definition obs_dgs (o : obs) : list tdg :=
+  match o with OPoll (Ready sl) _ _ => flat_map slot_dgs sl | _ => [] end.
+Definition ev_dgs (e : ev) : list tdg :=
+  match e with Arrive it => item_dgs it | _ => [] end.
+
+Lemma delivered_cons o os : delivered_of (o :: os) = obs_dgs o ++ delivered_of os.
+Proof. reflexivity. Qed.
+Lemma arrivals_cons e evs : arrivals_of (e :: evs) = ev_dgs e ++ arrivals_of evs.
+Proof. reflexivity. Qed.
+Lemma run_cons s e evs : run s (e :: evs) = snd (step s e) :: run (fst (step s e)) evs.
+Proof. cbn [run]. destruct (step s e); reflexivity. Qed.
+Lemma final_cons s e evs : final s (e :: evs) = final (fst (step s e)) evs.
+Proof. reflexivity. Qed.
+
+Lemma step_arrive s it : closed s = false ->
+  step s (Arrive it) = (mkSt (pending s) (chan s ++ [it]) false false, OArrive (wk s)).
+Proof. intros H. cbn [step]. now rewrite H. Qed.
+
+Lemma step_poll s bufs :
+  step s (Poll bufs) =
+  (fst (fst (poll_recv s bufs)),
+   OPoll (snd (fst (poll_recv s bufs))) (snd (poll_recv s bufs)) (digest (fst (fst (poll_recv s bufs))))).
+Proof. cbn [step]. destruct (poll_recv s bufs) as [[s' r] reg]. reflexivity. Qed.
+
+(* what has been handed out ++ what is still held and fits = what was held and fits ++
+   what arrived and fits *)
+Lemma history_inv B : B <= USIZE_MAX -> forall evs s,
+  wf_st s -> closed s = false -> Forall (ev_ok B) evs ->
+  delivered_of (run s evs) ++ Q B (final s evs) = Q B s ++ fitl B (arrivals_of evs) /\
+  wf_st (final s evs) /\ closed (final s evs) = false.
+Proof.
+  intros HB. induction evs as [|e evs IH]; intros s Hwf Hcl Hev.
+  - cbn. rewrite app_nil_r. auto.
+  - inversion Hev as [|? ? He Hev']; subst.
+    rewrite run_cons, final_cons, delivered_cons, arrivals_cons.
+    destruct e as [it|bufs|]; [| |destruct He].
+    + (* arrival *)
+      rewrite (step_arrive s it Hcl). cbn [fst snd obs_dgs ev_dgs app].
+      destruct (IH (mkSt (pending s) (chan s ++ [it]) false false)
+                  (wf_arrive s it Hwf He) eq_refl Hev') as (A & B1 & C).
+      rewrite A, Q_arrive, fitl_app, app_assoc. auto.
+    + (* poll *)
+      rewrite step_poll. cbn [fst snd ev_dgs app]. cbn in He.
+      pose proof (poll_spec s bufs (all_le_uniform B bufs HB He) Hwf) as H.
+      destruct (poll_recv s bufs) as [[s' r] reg]. cbn [fst snd].
+      unfold loop_post in H.
+      destruct H as [[_ Hc]|(new & Hr & HQ & Hw' & Hc' & _)]; [congruence|].
+      cbn [app] in Hr. subst r.
+      destruct (IH s' Hw' ltac:(congruence) Hev') as (A & B1 & C).
+      unfold obs_dgs. rewrite delivered_result, <- app_assoc, A, app_assoc.
+      rewrite (HQ B He). auto.
+Qed.
+
+Lemma st0_wf : wf_st st0.
+Proof. split; cbn; [discriminate|constructor]. Qed.
+
+Lemma recv_in_order_exactly_once B evs :
+  B <= USIZE_MAX -> Forall (ev_ok B) evs ->
+  delivered_of (model evs) ++ fitl B (queue_dgs (final st0 evs)) = fitl B (arrivals_of evs).
+Proof.
+  intros HB Hev. destruct (history_inv B HB evs st0 st0_wf eq_refl Hev) as (A & _).
+  exact A.
+Qed.
+
+(* ------------------------------------------------------------------ *)
+(* the monitor                                                         *)
+Lemma tdg_eqb_refl t : tdg_eqb t t = true.
+Proof. unfold tdg_eqb. now rewrite N.eqb_refl, bytes_eqb_refl. Qed.
+
+Lemma is_prefix_app a b : is_prefix a (a ++ b) = true.
+Proof. induction a as [|x a IH]; cbn [is_prefix app]; [reflexivity|]. now rewrite tdg_eqb_refl, IH. Qed.
+
+Lemma poll_nil s : poll_recv s [] = (s, Pending, false).
+Proof. reflexivity. Qed.
+
+Lemma slot_ok_forallb new : Forall slot_ok new ->
+  forallb (fun sl => N.eqb (s_len sl) (len (s_data sl))) new = true.
+Proof.
+  induction 1 as [|sl new H _ IH]; cbn [forallb]; [reflexivity|].
+  unfold slot_ok in H. rewrite H, N.eqb_refl. exact IH.
+Qed.
+
+Lemma mon_run B : B <= USIZE_MAX -> forall evs s arrived delivered waiting,
+  wf_st s -> closed s = false -> forallb wf_ev evs = true -> Forall (eq B) (buf_sizes evs) ->
+  delivered ++ Q B s = arrived -> (waiting = true -> wk s = true) ->
+  mon B evs (run s evs) arrived delivered waiting = true.
+Proof.
+  intros HB. induction evs as [|e evs IH]; intros s arrived delivered waiting Hwf Hcl Hev Hbuf Hinv Hwait.
+  - reflexivity.
+  - rewrite run_cons. cbn [forallb] in Hev. apply andb_prop in Hev as [He Hev].
+    destruct e as [it|bufs|].
+    + rewrite (step_arrive s it Hcl). cbn [fst snd mon].
+      apply andb_true_intro. split.
+      { destruct waiting; [now apply Hwait|reflexivity]. }
+      apply IH; auto; try discriminate; try (apply wf_arrive; auto);
+        try (rewrite Q_arrive, app_assoc, Hinv; reflexivity).
+    + cbn [buf_sizes] in Hbuf. apply Forall_app in Hbuf as [Hb1 Hb2].
+      destruct bufs as [|b bs].
+      * rewrite step_poll, poll_nil. cbn [fst snd mon]. apply IH; auto.
+      * rewrite step_poll.
+        pose proof (poll_spec s (b :: bs) (all_le_uniform B _ HB Hb1) Hwf) as H.
+        destruct (poll_recv s (b :: bs)) as [[s' r] reg]. cbn [fst snd].
+        unfold loop_post in H.
+        destruct H as [[_ Hc]|(new & Hr & HQ & Hw' & Hc' & _ & Hok & Hreg & Hnreg)]; [congruence|].
+        cbn [app] in Hr. subst r. specialize (HQ B Hb1).
+        destruct new as [|sl new]; cbn [result_of mon].
+        -- (* Pending *)
+           destruct reg.
+           2:{ destruct (Hnreg eq_refl) as [A _]. discriminate. }
+           destruct (Hreg eq_refl) as (Hp & Hch & Hw & _).
+           assert (HQ0 : Q B s' = []) by (unfold Q, queue_dgs; now rewrite Hp, Hch).
+           cbn [flat_map app] in HQ. rewrite HQ0 in HQ.
+           rewrite <- Hinv, <- HQ, app_nil_r.
+           rewrite (list_eqb_refl tdg_eqb tdg_eqb_refl). cbn [andb].
+           apply IH; auto; try congruence; try (now rewrite HQ0, app_nil_r).
+        -- (* Ready *)
+           cbn [negb andb].
+           rewrite (slot_ok_forallb _ Hok). cbn [andb].
+           assert (E : arrived = (delivered ++ flat_map slot_dgs (sl :: new)) ++ Q B s').
+           { rewrite <- app_assoc, HQ. now symmetry. }
+           rewrite E at 1. rewrite is_prefix_app. cbn [andb].
+           apply IH; auto; try congruence; try discriminate.
+    + reflexivity.
+Qed.
+
+Lemma uniform_spec evs B : uniform evs = Some B -> Forall (eq B) (buf_sizes evs).
+Proof.
+  unfold uniform. destruct (buf_sizes evs) as [|b bs]; [discriminate|].
+  destruct (forallb (N.eqb b) bs) eqn:E; [|discriminate]. intros H; inversion H; subst.
+  constructor; [reflexivity|]. apply Forall_forall. intros x Hx.
+  rewrite forallb_forall in E. apply N.eqb_eq. now apply E.
+Qed.
+
+Lemma model_monitor : forall i, monitor i (model i) = true.
+Proof.
+  intros i. unfold monitor. destruct (forallb wf_ev i) eqn:Ew; [|reflexivity]. cbn [negb].
+  destruct (uniform i) as [B|] eqn:Eu; [|reflexivity].
+  destruct (N.ltb_spec U64_MAX B); [reflexivity|].
+  apply mon_run; auto; try discriminate; try apply st0_wf; try (now apply uniform_spec).
+Qed.
+
+(* ------------------------------------------------------------------ *)
+(* non-vacuity and witnesses                                           *)
+Definition ex_hist : list ev :=
+  [Arrive (mkItem 1 (mkDg 0 (Some 4) [1;2;3;4;5;6;7;8;9])); Arrive (mkItem 2 (mkDg 0 None [7]));
+   Arrive (mkItem 3 (mkDg 0 None [1;2;3;4])); Poll [3]; Poll [3;3]; Poll [3]].
+
+Example ex_hist_ok : Forall (ev_ok 3) ex_hist.
+Proof. repeat constructor. Qed.
+
+(* segment size 4 > buffer 3: the two full segments are dropped, the 1-byte tail and the
+   next item are delivered, the 4-byte item is dropped, then Pending with the waker registered *)
+Example ex_hist_run :
+  model ex_hist =
+  [OArrive false; OArrive false; OArrive false;
+   OPoll (Ready [mkSlot 1 1 1 [9]]) false None;
+   OPoll (Ready [mkSlot 2 1 1 [7]]) true None;
+   OPoll Pending true None].
+Proof. vm_compute. reflexivity. Qed.
+
+Example ex_rebatch :
+  model [Arrive (mkItem 4 (mkDg 1 (Some 2) [1;2;3;4;5;6;7])); Poll [5;5;5]] =
+  [OArrive false;
+   OPoll (Ready [mkSlot 4 4 2 [1;2;3;4]; mkSlot 4 3 2 [5;6;7]]) true None].
+Proof. vm_compute. reflexivity. Qed.
+
+(* the code before the fix (num_segments without .max(1), break after a drop) on the model:
+   see notes/C17.md; witnesses are in corpus/C17/witness.case *)
+
+Lemma drained_all_delivered B evs :
+  B <= USIZE_MAX -> Forall (ev_ok B) evs ->
+  pending (final st0 evs) = None -> chan (final st0 evs) = [] ->
+  delivered_of (model evs) = fitl B (arrivals_of evs).
+Proof.
+  intros HB Hev Hp Hc. rewrite <- (recv_in_order_exactly_once B evs HB Hev).
+  unfold queue_dgs. rewrite Hp, Hc. cbn. now rewrite app_nil_r.
+Qed.
